@@ -203,6 +203,9 @@ pub struct Model {
     pub shape: u64,
     pub states_visited: BTreeSet<u64>,
     pub rejections_expected: i32,
+    /// number of data samples delivered so far (set by the executor) and, per taken sample, its value at the take
+    pub arrival_clock: u64,
+    pub taken_at: BTreeMap<(u32, u32), u64>,
 }
 
 fn ss_bit(read: bool) -> u8 {
@@ -235,6 +238,8 @@ impl Model {
             shape: 0,
             states_visited: BTreeSet::new(),
             rejections_expected: 0,
+            arrival_clock: 0,
+            taken_at: BTreeMap::new(),
         }
     }
     pub fn stat(&mut self, k: &'static str, n: i64) {
@@ -791,6 +796,7 @@ impl Model {
                         if let Some(ft) = self.fate.get_mut(&(s.w, s.seq)) {
                             ft.2 = Fate::Taken;
                         }
+                        self.taken_at.insert((s.w, s.seq), self.arrival_clock);
                     }
                     remove.push(*mi);
                 } else {
